@@ -31,4 +31,16 @@ var profiles = map[string]profile{
 		},
 		AddDirs: []string{"common", "p2p"},
 	},
+	// schedsim under -race for the shared chain data structures (C20).
+	"chainrace": {
+		Files: map[string]fileRule{
+			"pkg/blockchain/block_cache.go":     {Swap: map[string]string{"sync": pSync}},
+			"pkg/blockchain/data_access.go":     {Swap: map[string]string{"golang.org/x/sync/errgroup": pErrgroup}},
+			"pkg/consensus/certificate/pool.go": {Swap: map[string]string{"sync": pSync}},
+			"pkg/event/event.go":                {Swap: map[string]string{"sync": pSync}},
+			"pkg/db/diffdb/db.go":               {Swap: map[string]string{"sync": pSync}},
+			"pkg/consensus/sync/sync.go":        {Swap: map[string]string{"sync": pSync, "time": pTime}, GoTasks: true, Selects: true},
+		},
+		AddDirs: []string{"common"},
+	},
 }
